@@ -146,6 +146,14 @@ def runModel (line : String) : String :=
     | _ => "PROTOCOL-ERROR"
   | "stabilize" => stabilizeOp (arg 1) (arg 2)
   | "cmp" => cmpOps (parseEntry (arg 1)) (arg 2).toNat!
+  | "composed" =>
+    (match arg 1, arg 2 with
+     | "nick", "round" => fmtRes (Nickname.applyEnforceRules (parseStr (arg 3)))
+     | "nick", "cround" => fmtRes (Nickname.applyCompareRules (parseStr (arg 3)))
+     | p, "prepare" => fmtRes ((profByName p).prepare (parseStr (arg 3)))
+     | p, "enforce" => fmtRes ((profByName p).enforce (parseStr (arg 3)))
+     | _, _ => "PROTOCOL-ERROR")
+  | "forbidden" => "-"
   | "nfc" => fmtStr (nfc (parseStr (arg 1)))
   | "nfkc" => fmtStr (nfkc (parseStr (arg 1)))
   | _ => "PROTOCOL-ERROR"
